@@ -56,7 +56,13 @@ def unmarshalKind {σ} [DecidableEq σ] [Repr σ] (rd : Rd σ) (c : Codec σ) (S
 /-! ### C18 -/
 open Rtp.Model.Ntp Rtp.Pred.C18
 
-/-- every C18 observation is `ok …` or `panic` (a panic of the real code is an observation) -/
+/-- every C18 observation is `ok …` or `panic` (a panic of the real code is an observation).
+    A panic is `pred = false` whatever the input; it counts as a violation of C18 only where the
+    handler's `wf` holds, and each handler's `wf` is exactly the range the property states:
+    capture — the instant in [1970-01-01, NTP era end 2036) (`instantOk`);
+    offset — such an instant and |offset| < 2^31 s (`instantOk`, `offsetOk`);
+    estimate — such a send instant and a delay in [0, 64 s − 2^-18 s) (`estimateWF`).
+    Outside it only the correspondence with the model applies. -/
 def okPred {α} (p : α → Bool) : Res α → Bool
   | .ok a => p a
   | _ => false
@@ -77,7 +83,7 @@ def offset : Handler :=
     (fun (t, d) => let raw := encodeOffset d
       .ok (captureTimestamp t, ⟨raw, decodeOffset raw, some (decodeOffset raw)⟩))
     (fun (_, d) => okPred (fun (_, o) => offsetOkObs d o))
-    (fun (_, d) => offsetOk d.toInt)
+    (fun (t, d) => instantOk t.toInt && offsetOk d.toInt)
 
 def offdur : Handler :=
   mkHandler (Rd.opt Rd.i64) (Rd.res (Rd.opt Rd.i64)) (fun o => .ok (o.map decodeOffset))
